@@ -37,6 +37,7 @@ struct Ob {                 // harness-side mirror of one ShapeRef / JunctionRef
     ShapeRef *s; JunctionRef *j;
     Rc r;                   // immediate-semantics geometry (junction: its 2x2 box, centre = position)
     bool pendingAdd, pendingDel;
+    int rot;                // the polygon starts at vertex `rot` of Avoid::Rectangle's order (closing side varies)
 };
 struct Cn { unsigned id; ConnRef *c; bool hs, hd; Point s, d; };
 
@@ -80,7 +81,13 @@ bool pointFree(const World &w, const Point &p) {
     return true;
 }
 
-Polygon polyOf(const Rc &r) { return Rectangle(Point(r.x0, r.y0), Point(r.x1, r.y1)); }
+Polygon polyOf(const Rc &r, int rot = 0) {
+    Polygon q = Rectangle(Point(r.x0, r.y0), Point(r.x1, r.y1));
+    if (rot % 4 == 0) return q;
+    Polygon p(4);
+    for (int i = 0; i < 4; ++i) p.ps[i] = q.ps[(i + rot) % 4];
+    return p;
+}
 
 void pts(const Polygon &p) {
     printf(" %zu", p.size());
@@ -185,19 +192,19 @@ void after(World &w, vh::Rng &rng, bool processed, bool forceDump = false) {
 }
 
 // ---- API calls (each prints its op line first) ------------------------------------------------
-void opAddShape(World &w, vh::Rng &rng, const Rc &r, unsigned id = 0) {
+void opAddShape(World &w, vh::Rng &rng, const Rc &r, unsigned id = 0, int rot = 0) {
     if (!id) id = w.nextId++;
-    printf("op addShape %u", id); pts(polyOf(r)); printf("\n"); fflush(stdout);
-    Polygon p = polyOf(r);
+    printf("op addShape %u", id); pts(polyOf(r, rot)); printf("\n"); fflush(stdout);
+    Polygon p = polyOf(r, rot);
     ShapeRef *s = new ShapeRef(w.router, p, id);
-    w.obs.push_back(Ob{id, false, s, nullptr, r, true, false});
+    w.obs.push_back(Ob{id, false, s, nullptr, r, true, false, rot});
     after(w, rng, willProcess(w));
 }
 void opAddJunction(World &w, vh::Rng &rng, double x, double y) {
     unsigned id = w.nextId++;
     printf("op addJunction %u %s %s\n", id, vh::hx(x).c_str(), vh::hx(y).c_str()); fflush(stdout);
     JunctionRef *j = new JunctionRef(w.router, Point(x, y), id);
-    w.obs.push_back(Ob{id, true, nullptr, j, jbox(x, y), true, false});
+    w.obs.push_back(Ob{id, true, nullptr, j, jbox(x, y), true, false, 0});
     after(w, rng, willProcess(w));
 }
 void opMoveAbs(World &w, vh::Rng &rng, unsigned id, const Rc &r, bool fm) {
@@ -208,8 +215,8 @@ void opMoveAbs(World &w, vh::Rng &rng, unsigned id, const Rc &r, bool fm) {
         printf("op moveJunctionAbs %u %s %s\n", id, vh::hx(x).c_str(), vh::hx(y).c_str()); fflush(stdout);
         w.router->moveJunction(o->j, Point(x, y));
     } else {
-        printf("op moveShapeAbs %u %d", id, (int) fm); pts(polyOf(r)); printf("\n"); fflush(stdout);
-        w.router->moveShape(o->s, polyOf(r), fm);
+        printf("op moveShapeAbs %u %d", id, (int) fm); pts(polyOf(r, o->rot)); printf("\n"); fflush(stdout);
+        w.router->moveShape(o->s, polyOf(r, o->rot), fm);
     }
     o->r = r;
     after(w, rng, proc);
@@ -422,9 +429,9 @@ void randomOp(World &w, vh::Rng &rng, int maxShapes) {
             }
         } else if (!js.empty()) {
             unsigned id = rng.pick(js); Ob *o = findOb(w, id);
-            // deleteJunction with transactions off re-enters processTransaction() from ~ShapeConnectionPin
-            // (UBSan null deref, reported as a C15 finding candidate) - not generated here.
-            if (rng.coin(1, 3) && !o->pendingAdd && w.txn) opDelete(w, rng, id);
+            // (deleteJunction with transactions off used to re-enter processTransaction() from
+            // ~ShapeConnectionPin: C15 finding, fixed in /repo 448bcee)
+            if (rng.coin(1, 3) && !o->pendingAdd) opDelete(w, rng, id);
             else for (int t = 0; t < 30; ++t) {
                 double x = rng.range(2, 118), y = rng.range(2, 118);
                 if (!placeable(w, jbox(x, y), id)) continue;
@@ -437,8 +444,6 @@ void randomOp(World &w, vh::Rng &rng, int maxShapes) {
         opProcess(w, rng);
         if (rng.coin(1, 4)) opProcess(w, rng);                                         // no-op transaction
     } else if (c < 97) {
-        // a queued deleteJunction processed while transactions are off hits the C15 re-entrancy defect
-        if (w.txn) for (const Ob &o : w.obs) if (o.isJ && o.pendingDel) return;
         opSetTxn(w, rng, !w.txn);
     } else {
         if (w.cns.size() < 6) { Point s, d; if (randPoint(w, rng, s) && randPoint(w, rng, d) && !(s == d)) opNewConn(w, rng, s, d, rng.coin()); }
@@ -469,6 +474,36 @@ void scenarioUntouched(World &w, vh::Rng &rng) {
     else if (how == 1) { Point d = xfp(t, 30, 0), o0 = xfp(t, 0, 0); opMoveRel(w, rng, a, d.x - o0.x, d.y - o0.y); }
     else if (how == 2) { Rc r = xfr(t, 1.5 + 40, -depth, 2.5 + 40, 0.5); opMoveAbs(w, rng, a, r, false); }
     else { Point d = xfp(t, 15, 0), o0 = xfp(t, 0, 0); opMoveRel(w, rng, a, d.x - o0.x, d.y - o0.y); opMoveRel(w, rng, a, d.x - o0.x, d.y - o0.y); }
+    if (w.txn) opProcess(w, rng, true);
+}
+
+// The shortcut that opens when W goes away enters and leaves the vacated region through ONE side of W
+// only. A thin bar B pokes into the big slab W (the two overlap by `p`: with a mere gap or contact the
+// connector could slip between them), the connector joins two points on either side of B close to W,
+// so the only route is round the far end of B and does not touch W. All other sides of W are farther
+// from both endpoints than half the current route, so only the crossed side yields a shorter estimate
+// in markPolylineConnectorsNeedingReroutingForDeletedObstacle. Orientation (which side of W is crossed)
+// and the start vertex of W's polygon (which side is the closing side last->first) vary independently.
+void scenarioOneSide(World &w, vh::Rng &rng) {
+    Xf t{rng.coin() ? 1 : -1, rng.coin() ? 1 : -1, rng.coin(), (double) rng.range(40, 80), (double) rng.range(40, 80), (double) rng.range(1, 2)};
+    double b = rng.range(1, 3), p = rng.range(1, 3), c = b + rng.range(3, 8), q = rng.range(3, 8);
+    double L = rng.range(30, 45), D = L + rng.range(25, 40), H = L + rng.range(25, 40);
+    Rc W = xfr(t, -D, 0, D, H), B = xfr(t, -b, -L, b, p);
+    int saved = w.dumpsLeft; w.dumpsLeft = 0;         // no graph audit while two shapes overlap
+    int rot = (int) rng.range(0, 3);
+    if (rng.coin()) { opAddShape(w, rng, W, 0, rot); opAddShape(w, rng, B); }
+    else { opAddShape(w, rng, B); opAddShape(w, rng, W, 0, rot); }
+    unsigned wid = 0; for (const Ob &o : w.obs) if (o.r.x1 - o.r.x0 == W.x1 - W.x0 && o.r.y1 - o.r.y0 == W.y1 - W.y0) wid = o.id;
+    opNewConn(w, rng, xfp(t, c, -q), xfp(t, -c, -q), rng.coin());
+    if (w.txn) opProcess(w, rng);
+    Point far = xfp(t, 0, H + L + 60), o0 = xfp(t, 0, 0);
+    double dx = far.x - o0.x, dy = far.y - o0.y;
+    int how = (int) rng.range(0, 3);
+    if (how == 0) opDelete(w, rng, wid);
+    else if (how == 1) opMoveRel(w, rng, wid, dx, dy);
+    else if (how == 2) opMoveAbs(w, rng, wid, Rc{W.x0 + dx, W.y0 + dy, W.x1 + dx, W.y1 + dy}, false);
+    else { opMoveRel(w, rng, wid, dx / 2, dy / 2); opMoveRel(w, rng, wid, dx / 2, dy / 2); }
+    w.dumpsLeft = saved;
     if (w.txn) opProcess(w, rng, true);
 }
 
@@ -543,7 +578,8 @@ void scenarioOffPending(World &w, vh::Rng &rng) {
 
 static void runCase(const vh::Args &a, long k) {
     static const char *tags[] = {"unblock-untouched", "unblock-touched", "block", "txn-off-pending",
-                                 "rand-poly", "rand-orth", "rand-poly-off", "rand-orth-off", "block-diagonal"};
+                                 "rand-poly", "rand-orth", "rand-poly-off", "rand-orth-off", "block-diagonal",
+                                 "unblock-one-side"};
     {
         vh::Rng rng = vh::caseRng(a.seed, k);
         int cls;
@@ -551,11 +587,12 @@ static void runCase(const vh::Args &a, long k) {
         if (c < 2) cls = 0; else if (c < 6) cls = 1; else if (c < 8) cls = 2; else if (c < 9) cls = 3;
         else if (c < 13) cls = 4; else if (c < 16) cls = 5; else if (c < 18) cls = 6; else cls = 7;
         if (k % 40 == 7) cls = 8;
+        if (k % 20 == 1) cls = 9;
         World w;
-        w.orth = (cls == 5 || cls == 7) || (cls >= 1 && cls <= 3 && rng.coin(1, 3));   // cls 0 and 8 are polyline-only
+        w.orth = (cls == 5 || cls == 7) || (cls >= 1 && cls <= 3 && rng.coin(1, 3));   // cls 0, 8 and 9 are polyline-only
         static const double polyPen[] = {0, 0, 10, 50}, orthPen[] = {10, 10, 50};
         w.pen = w.orth ? orthPen[rng.range(0, 2)] : polyPen[rng.range(0, 3)];
-        w.txn = !(cls == 6 || cls == 7) && !((cls <= 2 || cls == 8) && rng.coin(1, 4));
+        w.txn = !(cls == 6 || cls == 7) && !((cls <= 2 || cls >= 8) && rng.coin(1, 3));
         vh::beginCase(k, tags[cls]);
         printf("cfg %s %s %d\n", w.orth ? "orth" : "poly", vh::hx(w.pen).c_str(), (int) w.txn);
         fflush(stdout);
@@ -563,11 +600,12 @@ static void runCase(const vh::Args &a, long k) {
         if (!w.txn) { opSetTxn(w, rng, false); }
         int maxShapes = (int) rng.range(2, 10);
         // background: a few random rectangles and connectors
-        bool directed = (cls <= 3 || cls == 8);
+        bool directed = (cls <= 3 || cls >= 8);
         int nbg = directed ? (int) rng.range(0, 3) : (int) rng.range(2, maxShapes);
         if (cls == 0) scenarioUntouched(w, rng);
         else if (cls == 1) scenarioTouched(w, rng, (int) rng.range(0, 5));
         else if (cls == 8) scenarioDiagonal(w, rng);
+        else if (cls == 9) scenarioOneSide(w, rng);
         for (int i = 0; i < nbg; ++i) { Rc r; if (randRect(w, rng, r, 0)) opAddShape(w, rng, r); }
         if (!directed && rng.coin(1, 2))
             for (int t = 0; t < 30; ++t) {
